@@ -5,6 +5,8 @@
 package sim
 
 import (
+	"encoding/base64"
+	"encoding/json"
 	"fmt"
 	"net/url"
 	"sort"
@@ -342,6 +344,7 @@ func (s *Sim) takePair(g *Grant, out *world.Out, gt fosite.GrantType, viaCodeOrD
 		}
 	}
 	g.LatestA = a
+	s.checkJWT(a)
 	if rt := out.S("refresh_token"); rt != "" {
 		rtLife := s.life(g.Client, gt, fosite.RefreshToken, s.Cfg.RTLife)
 		var exp time.Time
@@ -376,6 +379,8 @@ type AuthzReq struct {
 	Redirect string // "" => registered[0] sent; "-" => omitted
 	Subject  string
 	Extra    url.Values
+	Granted  []string // nil => everything requested is granted
+	GrantAud []string // nil => every requested audience is granted
 }
 
 // Authorize runs the authorization endpoint with consent and records codes / implicit tokens.
@@ -405,13 +410,29 @@ func (s *Sim) Authorize(a AuthzReq) *Grant {
 		sub = "user-1"
 	}
 	s.log("authorize client=%s rt=%q scope=%v aud=%v", a.Client, a.RT, a.Scopes, a.Aud)
-	out := s.W.Authorize(q, world.Consent{Subject: sub})
+	cons := world.Consent{Subject: sub}
+	gs, ga := a.Scopes, a.Aud
+	if a.Granted != nil {
+		cons.Scopes = a.Granted
+		gs = a.Granted
+	}
+	if a.GrantAud != nil {
+		cons.NoAud = true
+		ga = a.GrantAud
+		aud := a.GrantAud
+		cons.ReqMut = func(ar fosite.AuthorizeRequester) {
+			for _, x := range aud {
+				ar.GrantAudience(x)
+			}
+		}
+	}
+	out := s.W.Authorize(q, cons)
 	if out.Err != nil {
 		s.note("error %s", world.ErrDetail(out.Err))
 		s.R.Count("authorize_err:"+out.ErrName, 1)
 		return nil
 	}
-	g := &Grant{ID: len(s.Grants), Origin: "code", RT: a.RT, Client: a.Client, Subject: sub, Scopes: a.Scopes, Aud: a.Aud}
+	g := &Grant{ID: len(s.Grants), Origin: "code", RT: a.RT, Client: a.Client, Subject: sub, Scopes: gs, Aud: ga}
 	if strings.Contains(a.RT, " ") {
 		g.Origin = "hybrid"
 	} else if a.RT != "code" {
@@ -448,6 +469,9 @@ type RedeemOpts struct {
 	As       string     // presenting client ("" = owner)
 	Redirect *string    // nil = the one sent at authorization
 	Extra    url.Values // smuggled parameters
+	Auth     *world.Auth // explicit credentials (As still names who is really authenticating)
+	// Equivalent: the presented redirect_uri differs as a string but is URL-equivalent to the stored one (outcome unspecified)
+	Equivalent bool
 }
 
 // Redeem presents a code at the token endpoint and judges the result.
@@ -485,8 +509,26 @@ func (s *Sim) Redeem(g *Grant, o RedeemOpts) *world.Out {
 	}
 	s.log("redeem g%d as=%s state=%s foreign=%v wrongRedirect=%v", g.ID, as, state, foreign, wrongRedirect)
 	before := s.snapshotOthers(g)
-	out := s.W.Token(form, s.auth(as))
+	au := s.auth(as)
+	if o.Auth != nil {
+		au = *o.Auth
+	}
+	s.W.Store.ResetCalls()
+	s.W.Store.Record = true
+	out := s.W.Token(form, au)
+	s.W.Store.Record = false
+	calls := s.W.Store.TakeCalls()
 	ok := out.Err == nil && out.S("access_token") != ""
+	if o.Equivalent && !c.Used && !foreign {
+		s.note("equivalent redirect_uri presentation: ok=%v %s", ok, out.ErrName)
+		s.R.Unspecified("equivalent-but-not-identical-redirect-uri")
+		s.R.Case(fmt.Sprintf("redeem equivalent-redirect ok=%v err=%s", ok, out.ErrName))
+		if ok {
+			c.Used = true
+			s.takePair(g, out, fosite.GrantTypeAuthorizationCode, true)
+		}
+		return out
+	}
 	s.note("%s", map[bool]string{true: "tokens", false: "refused " + world.ErrDetail(out.Err)}[ok])
 	s.R.Case(fmt.Sprintf("redeem %s origin=%s foreign=%v wrongRedirect=%v ok=%v err=%s", state, g.Origin, foreign, wrongRedirect, ok, out.ErrName))
 	switch {
@@ -513,6 +555,14 @@ func (s *Sim) Redeem(g *Grant, o RedeemOpts) *world.Out {
 			s.viol("code-binding-error-class", g.Origin, "answered "+out.ErrName+" instead of invalid_grant")
 		}
 		s.R.Count("foreign_or_wrong_redirect_attempts", 1)
+		if !ok && state == "fresh" {
+			for _, cl := range calls {
+				if world.TokenTableWrites[cl.Method] && cl.Err == "" {
+					s.viol("failed-attempt-wrote-state", fmt.Sprintf("%s foreign=%v wrongRedirect=%v write=%s", g.Origin, foreign, wrongRedirect, cl.Method),
+						fmt.Sprintf("a refused redemption performed the storage write %s", cl.String()))
+				}
+			}
+		}
 	case state == "expired":
 		if ok {
 			s.viol("alive:expired", g.Origin+"/code", fmt.Sprintf("code expired at %s but was redeemed at %s", c.Exp, now))
@@ -797,4 +847,50 @@ func (s *Sim) DeviceGrant(client string, scopes []string) *Grant {
 	s.takePair(g, out, fosite.GrantTypeDeviceCode, true)
 	s.note("ok g%d rt=%v", g.ID, g.Latest != nil)
 	return g
+}
+
+// checkJWT decodes a JWT access token's payload and compares it with the grant.
+func (s *Sim) checkJWT(t *Tok) {
+	parts := strings.Split(t.Value, ".")
+	if len(parts) != 3 {
+		return
+	}
+	raw, err := base64.RawURLEncoding.DecodeString(parts[1])
+	if err != nil {
+		return
+	}
+	var m map[string]interface{}
+	if json.Unmarshal(raw, &m) != nil {
+		return
+	}
+	g := t.Grant
+	var bad []string
+	list := func(v interface{}) []string {
+		var o []string
+		switch x := v.(type) {
+		case []interface{}:
+			for _, e := range x {
+				o = append(o, fmt.Sprint(e))
+			}
+		case string:
+			o = strings.Fields(x)
+		}
+		return o
+	}
+	if !sameSet(list(m["scp"]), g.Scopes) {
+		bad = append(bad, fmt.Sprintf("scp %v != %v", m["scp"], g.Scopes))
+	}
+	if !sameSet(list(m["aud"]), g.Aud) {
+		bad = append(bad, fmt.Sprintf("aud %v != %v", m["aud"], g.Aud))
+	}
+	if g.Subject != "*" && fmt.Sprint(m["sub"]) != g.Subject {
+		bad = append(bad, fmt.Sprintf("sub %v != %v", m["sub"], g.Subject))
+	}
+	if e, ok := m["exp"].(float64); !ok || int64(e) != t.Exp.Unix() {
+		bad = append(bad, fmt.Sprintf("exp %v != %d", m["exp"], t.Exp.Unix()))
+	}
+	s.R.Count("jwt_access_tokens_decoded", 1)
+	if len(bad) > 0 {
+		s.viol("payload", originKey(t)+"/jwt-claims", fmt.Sprintf("JWT access token %s: %s", t.Name(), strings.Join(bad, "; ")))
+	}
 }
